@@ -70,6 +70,8 @@ var targets = []target{
 	{"oauthproxy.go", "isAllowedPath", "", ""},
 	{"oauthproxy.go", "isAllowedRoute", "OAuthProxy", "allowedRoutes:routes"},
 	{"pkg/app/redirect/validator.go", "IsValidRedirect", "validator", "allowedDomains:strs"},
+	{"pkg/apis/sessions/session_state.go", "IsExpired", "SessionState", "ExpiresOn:opttime"},
+	{"pkg/apis/sessions/session_state.go", "Age", "SessionState", "CreatedAt:opttime"},
 	{"oauthproxy.go", "encodeState", "", ""},
 	{"oauthproxy.go", "decodeState", "", ""},
 	{"pkg/encryption/nonce.go", "HashNonce", "", ""},
@@ -112,6 +114,7 @@ const (
 	kSess    = "session"
 	kOptStr  = "optstr"
 	kSha     = "sha"
+	kOptTime = "opttime"
 	kAny     = "?"
 )
 
@@ -169,6 +172,8 @@ func leanOfKind(k string) string {
 		return "Option Str"
 	case kSha:
 		return "Go.Sha"
+	case kOptTime:
+		return "Option Int"
 	}
 	panic("no Lean type for kind " + k)
 }
@@ -375,6 +380,12 @@ func (t *tr) expr(e ast.Expr) (string, string) {
 			return l[1 : len(l)-1], kChar
 		}
 		fail("literal %s", x.Value)
+	case *ast.StarExpr:
+		c, k := t.expr(x.X)
+		if k == kOptTime {
+			return "(← Go.derefTime " + atom(c) + ")", kTime
+		}
+		fail("dereference of a value of kind %s", k)
 	case *ast.UnaryExpr:
 		if cl, ok := x.X.(*ast.CompositeLit); ok && x.Op == token.AND && exprString(cl.Type) == "http.Cookie" {
 			allowed := map[string]bool{"Name": true, "Value": true, "Path": true, "Domain": true, "HttpOnly": true, "Secure": true, "SameSite": true, "MaxAge": true}
@@ -745,6 +756,9 @@ func (t *tr) call(x *ast.CallExpr) (string, string) {
 	case "net.SplitHostPort":
 		return "(Go.netSplitHostPort E " + a()[0] + ")", "tuple:str,str,err"
 	}
+	if strings.HasSuffix(fn, ".Clock.Now") {
+		return "E.nowNs", kTime // the session's clock is the wall clock outside tests
+	}
 	// reads of the request
 	if sel, ok := x.Fun.(*ast.SelectorExpr); ok {
 		if inner, ok := sel.X.(*ast.SelectorExpr); ok {
@@ -810,8 +824,13 @@ func (t *tr) call(x *ast.CallExpr) (string, string) {
 			}()
 			rc, rk = t.expr(sel.X)
 		}()
+		if rk == kOptTime {
+			rc, rk = "(← Go.derefTime "+atom(rc)+")", kTime // a method on a *time.Time: nil is a panic
+		}
 		if rk == kTime {
 			switch sel.Sel.Name {
+			case "IsZero":
+				return "(" + rc + " == Go.timeZero)", kBool
 			case "After":
 				return "(decide (" + rc + " > " + a()[0] + "))", kBool
 			case "Before":
